@@ -1,5 +1,6 @@
 import LymuiVerif.Gen.Dispatch
 import LymuiVerif.Core.StdModelCheck
+import LymuiVerif.Core.RneQ
 /-! Driver: one request per line (`name tok tok ...`), one reply per line. -/
 open Gen
 
@@ -9,6 +10,10 @@ def step (line : String) : String :=
   | ["@S", seed, n] =>
     match seed.toNat?, n.toNat? with
     | some sd, some k => StdModel.run sd k
+    | _, _ => "bad-op"
+  | ["@R", seed, n] =>
+    match seed.toNat?, n.toNat? with
+    | some sd, some k => StdModel.checkRne sd k
     | _, _ => "bad-op"
   | "@Q" :: name :: toks =>
     match dispatchQ name toks with
